@@ -16,7 +16,7 @@ PROPS["C05"] = {
         ("contracts.code311", "xdis.codetype.code311:parse_linetable"),
     ],
     "ground": [],
-    "bounded": [("ground.oracle_diff", "check", {"prop": "C05"}), ("ground.adequacy", "check", {"which": ("lines",)})],
+    "bounded": [("ground.oracle_diff", "check", {"prop": "C05"}), ("ground.adequacy", "check", {"which": ("lines",)}), ("ground.lineoffsets", "check", {})],
     "assumptions": [],
 }
 
@@ -254,8 +254,8 @@ _T = {
          "co_varnames / cell+free tables bounded to 2 and 1 symbolic names in the proof (constants, names unbounded); localsplus is xdis's reconstruction from (varnames, cellvars+freevars), compared with CPython's own table by a bounded differential on 3.11-3.13 programs of every table shape (recorded known finding: a free variable that shares a local's name, 3.12+); IndexError on out-of-range table indices is allowed; known finding: cmp_op spelling."),
  "C04": ("All three label finders are proved, per opcode table and for all code bytes, to return exactly the set of jump targets CPython's dis.findlabels computes (relative/absolute, word scaling from 3.10, backward jumps from 3.11, inline-cache skips in 3.12/3.13); the decoder's jump argval and is_jump_target are proved against the same spec.",
          "lists abstracted to their element sets (only append/membership are used); exception-handler targets added to labels by the decoder are checked only when exception_entries is None in the proof (bounded differential otherwise)."),
- "C05": ("offset2line (binary search) and the co_lnotab branch of findlinestarts are proved for all inputs against CPython's dis.findlinestarts semantics of each version family (unsigned/signed deltas, 3.8 end-of-code cut).",
-         "3.10 co_lines / 3.11+ location-table walkers are covered by the bounded differential only so far (see evidence bounded_checks)."),
+ "C05": ("offset2line (binary search) and every line-start routine are proved for all inputs against spec functions of each line-table format: the co_lnotab branch of findlinestarts (unsigned deltas before 3.6, signed 3.6-3.9, 3.8 end-of-code cut), Code310.co_lines and the co_lines branch of findlinestarts (3.10 range table, no-line ranges), the 3.11+ location-table walker parse_linetable with its varint scanners, and findlinestarts_313.",
+         "the spec functions' adequacy for CPython is bounded: they are compared with dis.findlinestarts / co_lines dumps of 9 interpreters; xdis.lineoffsets (the line -> offsets view) is bounded only: re-derived from findlinestarts and starts_line on the corpus, pre-2.1 code objects excluded because LineOffsetInfo does not accept them."),
  "C06": ("load_module_from_file_object is proved, for the magic of every final CPython release and the PyPy magics of the corpus and for all other header bytes, to return the header fields of that version's .pyc layout and to hand the stream to the code reader positioned right after the header.",
          "the code readers (load_code / marshal.loads / marsh.load) are external with an assumed contract whose precondition (stream position) is the proof obligation; files < 50 bytes rejected earlier."),
  "C08": ("Finite and exhaustive: int2magic/magic2int inverse on all 65536 values, every CPython registry row maps to its release, every accepted magic resolves to a version and an opcode table, release names map to the magic CPython's registry gives.",
